@@ -69,6 +69,9 @@ pub mod crypto {
         pub fn from_pem(pem: &Vec<u8>) -> (r: Result<KeyPair, Error>)
             ensures r matches Ok(k) ==> pem_key(pem@) == Some(k) { unimplemented!() }
     }
+    // acme_common gen_keypair (unit keys): a fresh key of the requested type
+    #[verifier::external_body]
+    pub fn gen_keypair(key_type: KeyType) -> (r: Result<KeyPair, Error>) { unimplemented!() }
     impl X509Certificate {
         #[verifier::external_body]
         pub fn from_pem(pem: &Vec<u8>) -> (r: Result<X509Certificate, Error>)
